@@ -147,13 +147,13 @@ def check(v, tier, seed, replay=None):
                 violations.append((target_of(rp), rp, st + ": " + summarize(out)))
         # 3. campaigns
         jobs = []
-        per = 1 if tier == "quick" else 16
+        per = 1 if tier == "quick" else 8
         runs = 80000 if tier == "quick" else 3000000
         for t in TARGETS:
             n = per + (1 if tier == "quick" and t in ("attributes", "datatable", "tokenizers", "keyval") else 0)
             for k in range(n):
                 s = v.splitmix(seed ^ int(hashlib.sha1((t + str(k)).encode()).hexdigest()[:12], 16))
-                jobs.append((v, exe, t, k, s, runs, active, rundir, 75 if tier == "quick" else 1800))
+                jobs.append((v, exe, t, k, s, runs, active, rundir, 75 if tier == "quick" else 600))
         with cf.ThreadPoolExecutor(v.NCPU) as ex:
             results = list(ex.map(campaign, jobs))
         per_t = {}
